@@ -12,6 +12,7 @@
 //!   C06 look <fs> <tiles> <x,y,z>                                          → none | <source coord> | err | panic
 //!   C06 stream <fs> <tiles> <box>                                          → sorted `out=src;…` | - | panic
 //!   C06 walk <fs> <req|-> <srccover> <tiles>                               → <cover>|<sorted tiles>
+//!   C06 fault <fs> <req|-> <srccover> <tiles> <victim|*> <probe>           → walk=<panic|err|tiles> look=<err|…>  (undecodable source tile + transcode)
 //!   C06 rstream <fs> <req> <srccover> <tiles> <box>                        → stream of the RESTRICTED converter over a box reaching beyond the restriction
 //!   C06 serve <fs> <tilesA> <tilesB>   (oracle only) `versatiles serve <flags> [a1]A [b]B [a2]A` vs `versatiles convert <flags>`
 //! `fs` = flip,swap as two bits ("10" = flip only).
@@ -477,6 +478,200 @@ fn beyond_boxes(sc: &Scen) -> Vec<TileBBox> {
 		}
 	}
 	v
+}
+
+// ---------------------------------------------------------------------------------------------
+// fault family: one (or every) source payload is invalid for the declared source compression and the
+// conversion transcodes.  The conversion may fail loudly (Err / panic) – it must never report success
+// while a selected tile is missing.
+// case line: `C06 fault <fs> <req|-> <srccover> <tiles> <victim|*> <probe>` → `walk=<panic|err|tiles> look=<err|…>`
+// ---------------------------------------------------------------------------------------------
+struct FaultSpec {
+	f: bool,
+	s: bool,
+	tiles: Vec<C>,
+	cover: TileBBoxPyramid,
+	req: Option<TileBBoxPyramid>,
+	victim: Option<C>, // None = mislabelled source compression (every tile)
+	src_comp: TileCompression,
+	dst_comp: TileCompression,
+	force: bool,
+	fault_kind: u64,
+	target: Option<&'static str>,
+}
+
+fn fault_case(out: &mut Out, ctx: &mut Ctx, rng: &mut Rng, i: usize) {
+	let (f, s) = (i & 1 == 1, i & 2 == 2);
+	let mut tiles: Vec<C> = gen_tiles(rng).into_iter().filter(|c| c.2 <= 24).collect();
+	if tiles.is_empty() {
+		tiles.push((1, 2, 3));
+	}
+	let mut cover = TileBBoxPyramid::new_empty();
+	for c in &tiles {
+		cover.include_coord(&TileCoord3::new(c.0, c.1, c.2).unwrap());
+	}
+	if cover.level_bbox.iter().any(|b| b.count_tiles() > 3000) {
+		return;
+	}
+	let victim = *rng.pick(&tiles);
+	let mislabel = rng.chance(1, 5);
+	// (raw text can be a *valid* brotli stream – an empty last meta-block followed by ignored bytes –
+	// so the mislabelling fault uses gzip, and every injected fault is verified to be undecodable below)
+	let src_comp = if mislabel || rng.chance(1, 2) { TileCompression::Gzip } else { TileCompression::Brotli };
+	let (dst_comp, force) = match rng.below(3) {
+		0 => (src_comp, true), // --force-recompress
+		1 => (TileCompression::Uncompressed, false),
+		_ => (if src_comp == TileCompression::Gzip { TileCompression::Brotli } else { TileCompression::Gzip }, false),
+	};
+	let fault_kind = rng.below(3);
+	// requested pyramid: none, or one that keeps the victim's image, or one that cuts it away
+	let vimg = t_fwd(f, s, victim);
+	let req: Option<TileBBoxPyramid> = match rng.below(4) {
+		0 | 1 => None,
+		2 => {
+			let mut p = TileBBoxPyramid::new_full(32);
+			p.set_zoom_min(vimg.2);
+			p.set_zoom_max(vimg.2);
+			Some(p)
+		}
+		_ => {
+			let mut p = TileBBoxPyramid::new_full(32);
+			p.level_bbox[vimg.2 as usize].set_empty();
+			Some(p)
+		}
+	};
+	let target = if i % 2 == 0 { Some(TARGETS[(i / 2) % 5]).filter(|t| *t != "mbtiles") } else { None };
+	fault_run(out, ctx, FaultSpec { f, s, tiles, cover, req, victim: if mislabel { None } else { Some(victim) }, src_comp, dst_comp, force, fault_kind, target });
+}
+
+fn fault_run(out: &mut Out, ctx: &mut Ctx, spec: FaultSpec) {
+	let FaultSpec { f, s, tiles, cover, req, victim: victim_opt, src_comp, dst_comp, force, fault_kind, target } = spec;
+	let mislabel = victim_opt.is_none();
+	let victim = victim_opt.unwrap_or(tiles[0]);
+	let vimg = t_fwd(f, s, victim);
+	let dst_comp = Some(dst_comp);
+	let bad_blob = |c: &C, kind: u64| -> Blob {
+		let good = compress(Blob::from(payload(c)), &src_comp).unwrap();
+		match kind {
+			0 => Blob::from(payload(c)),                                                  // a raw tile in a compressed set
+			1 => Blob::from(good.as_slice()[..(good.len() as usize / 2).max(1)].to_vec()), // truncated blob
+			_ => Blob::from(vec![0xffu8; 12]),                                             // garbage
+		}
+	};
+	// the fault must be real: the victim's payload is rejected by the real decoder of the declared compression
+	let fault_kind = if mislabel {
+		if tiles.iter().any(|c| decompress(Blob::from(payload(c)), &src_comp).is_ok()) {
+			out.count("fault_not_effective");
+			return;
+		}
+		fault_kind
+	} else {
+		match [fault_kind, 1, 2].into_iter().find(|k| decompress(bad_blob(&victim, *k), &src_comp).is_err()) {
+			Some(k) => k,
+			None => {
+				out.count("fault_not_effective");
+				return;
+			}
+		}
+	};
+	let make_source = || -> MemSource {
+		let stored = if mislabel { TileCompression::Uncompressed } else { src_comp };
+		let blobs: Vec<(TileCoord3, Blob)> = tiles
+			.iter()
+			.map(|c| {
+				let good = compress(Blob::from(payload(c)), &stored).unwrap();
+				let blob = if !mislabel && *c == victim { bad_blob(c, fault_kind) } else { good };
+				(TileCoord3::new(c.0, c.1, c.2).unwrap(), blob)
+			})
+			.collect();
+		let mut src = MemSource::new("c06f", TileFormat::JSON, stored, blobs).with_pyramid(cover.clone());
+		if mislabel {
+			// `--override-input-compression`: every stored (raw) tile is declared compressed
+			src.override_compression(src_comp);
+		}
+		src
+	};
+	let params = || TilesConverterParameters::new(dst_comp, req.clone(), force, f, s);
+	let out_comp = dst_comp.unwrap();
+	let decode = |b: Blob| match decompress(b, &out_comp) {
+		Ok(d) => String::from_utf8_lossy(d.as_slice()).to_string(),
+		Err(_) => "undecodable".to_string(),
+	};
+	let probe = vimg;
+	let line = format!(
+		"C06 fault {} {} {} {} {} {}",
+		fs_str(f, s),
+		req.as_ref().map_or("-".to_string(), pyr_str),
+		pyr_str(&cover),
+		tiles_str(&tiles),
+		if mislabel { "*".to_string() } else { coord_str(&victim) },
+		coord_str(&probe)
+	);
+	// the selection (direct): images of the source tiles inside the requested pyramid
+	let selected: BTreeSet<C> = tiles.iter().map(|t| t_fwd(f, s, *t)).filter(|c| req.as_ref().map_or(true, |q| in_b(&norm(q.get_level_bbox(c.2)), c.0, c.1))).collect();
+	// in memory: what a writer receives
+	let walk = catch(|| {
+		let rd = TilesConvertReader::new_from_reader(make_source().boxed(), params())?;
+		let cov = rd.get_parameters().bbox_pyramid.clone();
+		let mut items = vec![];
+		for b in cov.iter_levels() {
+			let v = ctx.rt.block_on(async { rd.get_bbox_tile_stream(b.clone()).await.collect().await });
+			items.extend(v.into_iter().map(|(c, bl)| ((c.x, c.y, c.z), decode(bl))));
+		}
+		anyhow::Ok(items)
+	});
+	let look = catch(|| {
+		let rd = TilesConvertReader::new_from_reader(make_source().boxed(), params())?;
+		ctx.rt.block_on(rd.get_tile_data(&TileCoord3::new(probe.0, probe.1, probe.2)?))
+	});
+	let look_s = show(look, |o| o.map_or("none".into(), |b| decode(b)));
+	let walk_s = match &walk {
+		Ok(Ok(items)) => sort_items(items.clone()),
+		Ok(Err(_)) => "err".into(),
+		Err(_) => "panic".into(),
+	};
+	out.case(&line, &format!("walk={walk_s} look={look_s}"), true);
+	out.count(match &walk {
+		Ok(Ok(_)) => "fault_walk_success",
+		Ok(Err(_)) => "fault_walk_err",
+		Err(_) => "fault_walk_panic",
+	});
+	out.count(if mislabel { "fault_mislabelled_source" } else { ["fault_raw_tile", "fault_truncated_tile", "fault_garbage_tile"][fault_kind as usize] });
+	let sig = |target: &str| json!({"kind": "silent_tile_loss", "target": target, "flip": f, "swap": s});
+	let mut e: Option<String> = None;
+	if let Ok(Ok(items)) = &walk {
+		let got: BTreeSet<C> = items.iter().map(|x| x.0).collect();
+		if let Some(c) = selected.iter().find(|c| !got.contains(c)) {
+			e = Some(format!("the level streams finish without error but lack the selected tile {c:?} (lookup there: {look_s})"));
+		}
+	}
+	out.oracle(e.is_none(), &format!("C06 silent-tile-loss: {}", e.clone().unwrap_or_default()), sig("memory"), json!({"case": line}));
+	// real conversion into a container
+	if let Some(target) = target {
+		let path = target_path(ctx, target);
+		let r = catch(|| ctx.rt.block_on(convert_tiles_container(make_source().boxed(), params(), &path)));
+		let mut e: Option<String> = None;
+		match r {
+			Ok(Ok(())) => {
+				out.count("fault_conversion_success");
+				let dec = |b: Blob, comp: TileCompression| match decompress(b, &comp) {
+					Ok(d) => String::from_utf8_lossy(d.as_slice()).to_string(),
+					Err(_) => "undecodable".to_string(),
+				};
+				let got: BTreeSet<C> = match catch(|| read_all(ctx, &path, &dec)) {
+					Ok(Ok((_, items, _))) => items.into_iter().map(|x| x.0).collect(),
+					_ => BTreeSet::new(),
+				};
+				if let Some(c) = selected.iter().find(|c| !got.contains(c)) {
+					e = Some(format!("convert_tiles_container → {target} reports success but the output lacks the selected tile {c:?} (its pre-image holds a source tile; lookup there: {look_s})"));
+				}
+			}
+			Ok(Err(_)) => out.count("fault_conversion_err"),
+			Err(_) => out.count("fault_conversion_panic"),
+		}
+		cleanup(&path);
+		out.oracle(e.is_none(), &format!("C06 silent-tile-loss: {}", e.clone().unwrap_or_default()), sig(target), json!({"case": line, "target": target}));
+	}
 }
 
 const TARGETS: [&str; 5] = ["versatiles", "pmtiles", "tar", "mbtiles", "dir"];
@@ -1405,6 +1600,17 @@ fn replay_line(out: &mut Out, ctx: &mut Ctx, line: &str) {
 				do_stream(out, ctx, &sc, &parse_box(t[4]));
 			}
 		}
+		"fault" if t.len() == 8 => {
+			let (f, s) = flags(t[2]);
+			let tiles = parse_tiles(t[5]);
+			let victim = if t[6] == "*" { None } else { Some(parse_coord(t[6])) };
+			for (src_comp, dst_comp, force, fault_kind) in [(TileCompression::Gzip, TileCompression::Brotli, false, 0), (TileCompression::Brotli, TileCompression::Brotli, true, 1)] {
+				if victim.is_none() && src_comp != TileCompression::Gzip {
+					continue;
+				}
+				fault_run(out, ctx, FaultSpec { f, s, tiles: tiles.clone(), cover: parse_pyr(t[4]), req: opt_pyr(t[3]), victim, src_comp, dst_comp, force, fault_kind, target: Some("tar") });
+			}
+		}
 		"rstream" if t.len() == 7 => {
 			let (f, s) = flags(t[2]);
 			do_rstream(out, ctx, &mk(f, s, opt_pyr(t[3]), parse_pyr(t[4]), parse_tiles(t[5])), &parse_box(t[6]));
@@ -1462,6 +1668,9 @@ pub fn run(args: &Args) {
 		let tiles = gen_tiles(&mut rng);
 		let o = gen_opts(&mut rng, &tiles);
 		do_pyr(&mut out, &o);
+	}
+	for i in 0..args.n(120, 1500) {
+		fault_case(&mut out, &mut ctx, &mut rng, i);
 	}
 	binary_cases(&mut out, &mut ctx, &mut rng, args.n(24, 200));
 	if args.thorough() {
